@@ -28,7 +28,7 @@ head = sh('git -C /repo rev-parse HEAD').stdout.strip()
 sh('git -C /repo worktree remove --force %s' % W)
 sh('git -C /repo worktree add --detach %s %s' % (W, head))
 md = open(os.path.join(seed, 'demo.md')).read()
-m = re.search(r'[Cc]opy `demo\.rs` to `([^`]+)`', md) or re.search(r'^\s{4}(\S+\.rs)\s*$', md, flags=re.M)
+m = re.search(r'[Cc]opy `demo\.rs` to \**`([^`]+)`', md) or re.search(r'^\s{4}(\S+\.rs)\s*$', md, flags=re.M)
 assert m, 'cannot find demo destination in demo.md'
 dest = m.group(1)
 mod = os.path.basename(dest)[:-3]
